@@ -102,5 +102,332 @@ pub proof fn thm_share_ok_iff_honest<C: Ciphersuite>(sp: SigningPackage<C>, vk: 
     thm_share_check_iff::<C>(sp, vk, id, nonce(id).0, nonce(id).1, poly::<AL<C>>(a, id.0.0), z, ys[id].0.0, sp_c::<C>(sp, vk));
 }
 
+// ---------------------------------------------------------------------------------------------------
+// T4a: what `spec_culprits` (the list detect_cheater / aggregate report) contains, and in which order
+pub open spec fn in_prefix<C: Ciphersuite>(keys: Seq<Identifier<C>>, n: int, x: Identifier<C>) -> bool
+{ exists|j: int| 0 <= j < n && #[trigger] keys[j] == x }
+
+// x occurs before y among the first n keys
+pub open spec fn key_before<C: Ciphersuite>(keys: Seq<Identifier<C>>, n: int, x: Identifier<C>, y: Identifier<C>) -> bool
+{ exists|a: int, b: int| #![trigger keys[a], keys[b]] 0 <= a < b < n && keys[a] == x && keys[b] == y }
+
+// membership: x is reported iff x is one of the first n keys and its share fails the check
+//@serves C04
+pub proof fn lemma_culprits_members<C: Ciphersuite>(keys: Seq<Identifier<C>>, sp: SigningPackage<C>, bf: Map<Identifier<C>, BindingFactor<C>>,
+        shares: ShareMap<C>, ys: Map<Identifier<C>, VerifyingShare<C>>, c: Scalar<C>, n: int)
+    requires 0 <= n <= keys.len()
+    ensures forall|x: Identifier<C>| #[trigger] spec_culprits::<C>(keys, sp, bf, shares, ys, c, n).contains(x)
+                <==> (share_bad::<C>(sp, bf, shares, ys, c, x) && in_prefix::<C>(keys, n, x))
+    decreases n
+{
+    let cur = spec_culprits::<C>(keys, sp, bf, shares, ys, c, n);
+    if n > 0 {
+        lemma_culprits_members::<C>(keys, sp, bf, shares, ys, c, n - 1);
+        let r = spec_culprits::<C>(keys, sp, bf, shares, ys, c, n - 1);
+        let last = keys[n - 1];
+        assert(cur == r || (share_bad::<C>(sp, bf, shares, ys, c, last) && cur == r.push(last)));
+        assert forall|x: Identifier<C>| #[trigger] cur.contains(x) <==> (share_bad::<C>(sp, bf, shares, ys, c, x) && in_prefix::<C>(keys, n, x)) by {
+            if cur.contains(x) {
+                let i = choose|i: int| 0 <= i < cur.len() && cur[i] == x;
+                if i < r.len() {
+                    assert(r[i] == x);
+                    assert(r.contains(x));
+                    let j = choose|j: int| 0 <= j < n - 1 && #[trigger] keys[j] == x;
+                    assert(0 <= j < n && keys[j] == x);
+                } else {
+                    assert(keys[n - 1] == x);
+                }
+            }
+            if share_bad::<C>(sp, bf, shares, ys, c, x) && in_prefix::<C>(keys, n, x) {
+                let j = choose|j: int| 0 <= j < n && #[trigger] keys[j] == x;
+                if j < n - 1 {
+                    assert(in_prefix::<C>(keys, n - 1, x));
+                    assert(r.contains(x));
+                    let i = choose|i: int| 0 <= i < r.len() && r[i] == x;
+                    assert(cur[i] == x);
+                } else {
+                    assert(cur == r.push(last));
+                    assert(cur[r.len() as int] == x);
+                }
+            }
+        }
+    } else {
+        assert forall|x: Identifier<C>| #[trigger] cur.contains(x) <==> (share_bad::<C>(sp, bf, shares, ys, c, x) && in_prefix::<C>(keys, n, x)) by {}
+    }
+}
+
+// for the keys themselves: keys[k] (k < n) is reported iff its share fails; every reported identifier is one of the keys
+//@serves C04
+pub proof fn lemma_culprits_keys<C: Ciphersuite>(keys: Seq<Identifier<C>>, sp: SigningPackage<C>, bf: Map<Identifier<C>, BindingFactor<C>>,
+        shares: ShareMap<C>, ys: Map<Identifier<C>, VerifyingShare<C>>, c: Scalar<C>, n: int)
+    requires 0 <= n <= keys.len()
+    ensures
+        forall|k: int| 0 <= k < n ==> (spec_culprits::<C>(keys, sp, bf, shares, ys, c, n).contains(#[trigger] keys[k])
+            <==> !sp_share_ok::<C>(sp, bf, keys[k], shares[keys[k]].share.0, ys[keys[k]].0.0, c)),
+        forall|i: int| 0 <= i < spec_culprits::<C>(keys, sp, bf, shares, ys, c, n).len() ==>
+            in_prefix::<C>(keys, n, #[trigger] spec_culprits::<C>(keys, sp, bf, shares, ys, c, n)[i])
+            && share_bad::<C>(sp, bf, shares, ys, c, spec_culprits::<C>(keys, sp, bf, shares, ys, c, n)[i]),
+{
+    let cur = spec_culprits::<C>(keys, sp, bf, shares, ys, c, n);
+    lemma_culprits_members::<C>(keys, sp, bf, shares, ys, c, n);
+    assert forall|k: int| 0 <= k < n implies (cur.contains(#[trigger] keys[k]) <==> !sp_share_ok::<C>(sp, bf, keys[k], shares[keys[k]].share.0, ys[keys[k]].0.0, c)) by {
+        assert(in_prefix::<C>(keys, n, keys[k]));
+    }
+    assert forall|i: int| 0 <= i < cur.len() implies in_prefix::<C>(keys, n, #[trigger] cur[i]) && share_bad::<C>(sp, bf, shares, ys, c, cur[i]) by {
+        assert(cur.contains(cur[i]));
+    }
+}
+
+// order: the reported identifiers appear in the order of `keys`
+//@serves C04
+pub proof fn lemma_culprits_ordered<C: Ciphersuite>(keys: Seq<Identifier<C>>, sp: SigningPackage<C>, bf: Map<Identifier<C>, BindingFactor<C>>,
+        shares: ShareMap<C>, ys: Map<Identifier<C>, VerifyingShare<C>>, c: Scalar<C>, n: int)
+    requires 0 <= n <= keys.len()
+    ensures forall|i: int, j: int| #![trigger spec_culprits::<C>(keys, sp, bf, shares, ys, c, n)[i], spec_culprits::<C>(keys, sp, bf, shares, ys, c, n)[j]]
+        0 <= i < j < spec_culprits::<C>(keys, sp, bf, shares, ys, c, n).len() ==>
+            key_before::<C>(keys, n, spec_culprits::<C>(keys, sp, bf, shares, ys, c, n)[i], spec_culprits::<C>(keys, sp, bf, shares, ys, c, n)[j])
+    decreases n
+{
+    let cur = spec_culprits::<C>(keys, sp, bf, shares, ys, c, n);
+    if n > 0 {
+        lemma_culprits_ordered::<C>(keys, sp, bf, shares, ys, c, n - 1);
+        lemma_culprits_members::<C>(keys, sp, bf, shares, ys, c, n - 1);
+        let r = spec_culprits::<C>(keys, sp, bf, shares, ys, c, n - 1);
+        let last = keys[n - 1];
+        assert(cur == r || cur == r.push(last));
+        assert forall|i: int, j: int| #![trigger cur[i], cur[j]] 0 <= i < j < cur.len() implies key_before::<C>(keys, n, cur[i], cur[j]) by {
+            if j < r.len() {
+                assert(r[i] == cur[i] && r[j] == cur[j]);
+                assert(key_before::<C>(keys, n - 1, r[i], r[j]));
+                let (a, b) = choose|a: int, b: int| #![trigger keys[a], keys[b]] 0 <= a < b < n - 1 && keys[a] == r[i] && keys[b] == r[j];
+                assert(0 <= a < b < n && keys[a] == cur[i] && keys[b] == cur[j]);
+            } else {
+                assert(cur[j] == last);
+                assert(r[i] == cur[i]);
+                assert(r.contains(r[i]));
+                let a = choose|a: int| 0 <= a < n - 1 && #[trigger] keys[a] == r[i];
+                assert(0 <= a < n - 1 < n && keys[a] == cur[i] && keys[n - 1] == cur[j]);
+            }
+        }
+    } else {
+        assert(cur.len() == 0);
+    }
+}
+
+// hence for strictly ascending keys (BTreeMap iteration order) the report is strictly ascending as well
+//@serves C04
+pub proof fn lemma_culprits_increasing<C: Ciphersuite>(keys: Seq<Identifier<C>>, sp: SigningPackage<C>, bf: Map<Identifier<C>, BindingFactor<C>>,
+        shares: ShareMap<C>, ys: Map<Identifier<C>, VerifyingShare<C>>, c: Scalar<C>, n: int)
+    requires 0 <= n <= keys.len(), vstd::std_specs::btree::increasing_seq(keys)
+    ensures forall|i: int, j: int| #![trigger spec_culprits::<C>(keys, sp, bf, shares, ys, c, n)[i], spec_culprits::<C>(keys, sp, bf, shares, ys, c, n)[j]]
+        0 <= i < j < spec_culprits::<C>(keys, sp, bf, shares, ys, c, n).len() ==>
+            lt(spec_culprits::<C>(keys, sp, bf, shares, ys, c, n)[i], spec_culprits::<C>(keys, sp, bf, shares, ys, c, n)[j])
+{
+    use_id_order::<C>();
+    broadcast use vstd::std_specs::btree::axiom_increasing_seq_meaning;
+    let cur = spec_culprits::<C>(keys, sp, bf, shares, ys, c, n);
+    lemma_culprits_ordered::<C>(keys, sp, bf, shares, ys, c, n);
+    assert forall|i: int, j: int| #![trigger cur[i], cur[j]] 0 <= i < j < cur.len() implies lt(cur[i], cur[j]) by {
+        assert(key_before::<C>(keys, n, cur[i], cur[j]));
+        let (a, b) = choose|a: int, b: int| #![trigger keys[a], keys[b]] 0 <= a < b < n && keys[a] == cur[i] && keys[b] == cur[j];
+        assert(lt(keys[a], keys[b]));
+    }
+}
+
+// the first reported identifier is the first key (in the order of `keys`) whose share fails
+//@serves C04
+pub proof fn lemma_culprits_first<C: Ciphersuite>(keys: Seq<Identifier<C>>, sp: SigningPackage<C>, bf: Map<Identifier<C>, BindingFactor<C>>,
+        shares: ShareMap<C>, ys: Map<Identifier<C>, VerifyingShare<C>>, c: Scalar<C>, n: int, k: int)
+    requires 0 <= k < n <= keys.len(), share_bad::<C>(sp, bf, shares, ys, c, keys[k]),
+        forall|j: int| 0 <= j < k ==> !share_bad::<C>(sp, bf, shares, ys, c, #[trigger] keys[j]),
+    ensures spec_culprits::<C>(keys, sp, bf, shares, ys, c, n).len() > 0, spec_culprits::<C>(keys, sp, bf, shares, ys, c, n)[0] == keys[k]
+{
+    lemma_culprits_empty_prefix::<C>(keys, sp, bf, shares, ys, c, k);
+    let one = spec_culprits::<C>(keys, sp, bf, shares, ys, c, k + 1);
+    assert(one == spec_culprits::<C>(keys, sp, bf, shares, ys, c, k).push(keys[k]));
+    assert(one.len() == 1 && one[0] == keys[k]);
+    lemma_culprits_prefix::<C>(keys, sp, bf, shares, ys, c, k + 1, n);
+}
+
+// T4c (first-cheater mode): the participant named first is a participant whose share fails, and it is the LOWEST such
+// identifier: every other participant whose share fails is greater
+//@serves C04
+pub proof fn thm_first_culprit_lowest<C: Ciphersuite>(sp: SigningPackage<C>, shares: ShareMap<C>, pk: PublicKeyPackage<C>)
+    requires shares.dom().finite(), agg_culprits::<C>(sp, shares, pk).len() > 0
+    ensures ({
+        let vk = pk.verifying_key.element.0; let bf = sp_rho_map::<C>(sp, vk); let c = sp_c::<C>(sp, vk); let ys = pk.verifying_shares@;
+        let first = agg_culprits::<C>(sp, shares, pk)[0];
+        &&& shares.contains_key(first)
+        &&& share_bad::<C>(sp, bf, shares, ys, c, first)
+        &&& forall|id: Identifier<C>| #[trigger] shares.contains_key(id) && share_bad::<C>(sp, bf, shares, ys, c, id) ==> id == first || lt(first, id)
+        &&& forall|id: Identifier<C>| #[trigger] shares.contains_key(id) && share_bad::<C>(sp, bf, shares, ys, c, id) ==> !lt(id, first)
+    })
+{
+    use_id_order::<C>();
+    let vk = pk.verifying_key.element.0; let bf = sp_rho_map::<C>(sp, vk); let c = sp_c::<C>(sp, vk); let ys = pk.verifying_shares@;
+    let keys = sorted_seq(shares.dom());
+    lemma_sorted_exists::<C>(shares.dom());
+    keys.unique_seq_to_set();
+    let n = shares.dom().len() as int;
+    let cu = agg_culprits::<C>(sp, shares, pk);
+    assert(cu == spec_culprits::<C>(keys, sp, bf, shares, ys, c, n));
+    let first = cu[0];
+    lemma_culprits_members::<C>(keys, sp, bf, shares, ys, c, n);
+    lemma_culprits_increasing::<C>(keys, sp, bf, shares, ys, c, n);
+    assert(cu.contains(first));
+    let j0 = choose|j: int| 0 <= j < n && #[trigger] keys[j] == first;
+    assert(keys.contains(first));
+    assert(keys.to_set().contains(first));
+    assert forall|id: Identifier<C>| #[trigger] shares.contains_key(id) && share_bad::<C>(sp, bf, shares, ys, c, id) implies (id == first || lt(first, id)) && !lt(id, first) by {
+        assert(keys.to_set().contains(id));
+        let j = choose|j: int| 0 <= j < keys.len() && keys[j] == id;
+        assert(in_prefix::<C>(keys, n, id));
+        assert(cu.contains(id));
+        let i = choose|i: int| 0 <= i < cu.len() && cu[i] == id;
+        if i > 0 { assert(lt(cu[0], cu[i])); }
+        if lt(id, first) { if i > 0 { assert(lt(first, first)); } }
+    }
+}
+
+// ---------------------------------------------------------------------------------------------------
+// T5a/b (C03): the threshold guards
+//@serves C03
+pub proof fn thm_sign_refuses_below_threshold<C: Ciphersuite>(sp: SigningPackage<C>, sn: crate::round1::SigningNonces<C>, kp: KeyPackage<C>)
+    requires sp.signing_commitments@.dom().len() < kp.min_signers
+    ensures spec_sign::<C>(sp, sn, kp) == Err::<crate::round2::SignatureShare<C>, Error<C>>(Error::IncorrectNumberOfCommitments)
+{}
+
+//@serves C03
+pub proof fn thm_aggregate_refuses_below_threshold<C: Ciphersuite>(sp: SigningPackage<C>, shares: ShareMap<C>, pk: PublicKeyPackage<C>, detect: bool, t: u16)
+    requires pk.min_signers == Some(t), sp.signing_commitments@.dom().len() == shares.dom().len(), shares.dom().len() < t
+    ensures agg_guard_err::<C>(sp, shares, pk, detect) == Some(Error::<C>::IncorrectNumberOfShares)
+{}
+
+// ... and hence whatever aggregate returns below the threshold is that refusal (never a signature)
+//@serves C03
+pub proof fn thm_aggregate_result_below_threshold<C: Ciphersuite>(res: Result<Signature<C>, Error<C>>, sp: SigningPackage<C>, shares: ShareMap<C>, pk: PublicKeyPackage<C>,
+        detect: bool, first: bool, t: u16)
+    requires agg_result_is::<C>(res, sp, shares, pk, detect, first), pk.min_signers == Some(t), shares.dom().len() < t
+    ensures res is Err, res->Err_0 == Error::<C>::IncorrectNumberOfShares || res->Err_0 == Error::<C>::UnknownIdentifier,
+        sp.signing_commitments@.dom().len() == shares.dom().len() ==> res->Err_0 == Error::<C>::IncorrectNumberOfShares
+{}
+
+// ---------------------------------------------------------------------------------------------------
+// T6a (C05): the signer's and the coordinator's refusals that bind a share to its session
+//@serves C05
+pub proof fn thm_sign_refuses_missing<C: Ciphersuite>(sp: SigningPackage<C>, sn: crate::round1::SigningNonces<C>, kp: KeyPackage<C>)
+    requires sp.signing_commitments@.dom().len() >= kp.min_signers, !sp.signing_commitments@.contains_key(kp.identifier)
+    ensures spec_sign::<C>(sp, sn, kp) == Err::<crate::round2::SignatureShare<C>, Error<C>>(Error::MissingCommitment)
+{}
+
+//@serves C05
+pub proof fn thm_sign_refuses_incorrect<C: Ciphersuite>(sp: SigningPackage<C>, sn: crate::round1::SigningNonces<C>, kp: KeyPackage<C>)
+    requires sp.signing_commitments@.dom().len() >= kp.min_signers, sp.signing_commitments@.contains_key(kp.identifier),
+        sn.commitments != sp.signing_commitments@[kp.identifier]
+    ensures spec_sign::<C>(sp, sn, kp) == Err::<crate::round2::SignatureShare<C>, Error<C>>(Error::IncorrectCommitment)
+{}
+
+//@serves C05
+pub proof fn thm_sign_refuses_identity<C: Ciphersuite>(sp: SigningPackage<C>, sn: crate::round1::SigningNonces<C>, kp: KeyPackage<C>)
+    requires sp.signing_commitments@.dom().len() >= kp.min_signers, sp.signing_commitments@.contains_key(kp.identifier),
+        sn.commitments == sp.signing_commitments@[kp.identifier], items_have_identity::<C>(sp_items::<C>(sp))
+    ensures spec_sign::<C>(sp, sn, kp) == Err::<crate::round2::SignatureShare<C>, Error<C>>(Error::GroupError(GroupError::InvalidIdentityElement))
+{}
+
+// whatever the other guards say, a signer never signs a package with an identity commitment, a package that lacks its own entry
+// or whose entry differs from the commitments it made, or a package below its threshold
+//@serves C03 C05
+pub proof fn thm_sign_ok_implies_session_sound<C: Ciphersuite>(sp: SigningPackage<C>, sn: crate::round1::SigningNonces<C>, kp: KeyPackage<C>)
+    requires spec_sign::<C>(sp, sn, kp) is Ok
+    ensures sp.signing_commitments@.dom().len() >= kp.min_signers, sp.signing_commitments@.contains_key(kp.identifier),
+        sn.commitments == sp.signing_commitments@[kp.identifier], !items_have_identity::<C>(sp_items::<C>(sp)),
+        kp.verifying_key.element.0 != e0::<C>(), sp_R::<C>(sp, kp.verifying_key.element.0) != e0::<C>(),
+        (spec_sign::<C>(sp, sn, kp)->Ok_0).share.0 == spec_sig_share::<C>(sn.hiding.0.0, sn.binding.0.0, sp_rho::<C>(sp, kp.verifying_key.element.0, kp.identifier),
+            sp_lambda::<C>(sp, kp.identifier), kp.signing_share.0.0, sp_c::<C>(sp, kp.verifying_key.element.0)),
+{}
+
+// the coordinator refuses a package with an identity commitment (whatever the other guards say)
+//@serves C05
+pub proof fn thm_aggregate_refuses_identity<C: Ciphersuite>(res: Result<Signature<C>, Error<C>>, sp: SigningPackage<C>, shares: ShareMap<C>, pk: PublicKeyPackage<C>, detect: bool, first: bool)
+    requires items_have_identity::<C>(sp_items::<C>(sp))
+    ensures agg_guard_err::<C>(sp, shares, pk, detect) is Some,
+        agg_result_is::<C>(res, sp, shares, pk, detect, first) ==> res is Err,
+        // with the exact error once the membership guards pass
+        sp.signing_commitments@.dom().len() == shares.dom().len() && !(pk.min_signers is Some && shares.dom().len() < pk.min_signers->Some_0)
+            && (forall|id: Identifier<C>| #[trigger] sp.signing_commitments@.contains_key(id) ==> shares.contains_key(id) && (detect ==> pk.verifying_shares@.contains_key(id)))
+            ==> agg_guard_err::<C>(sp, shares, pk, detect) == Some(Error::<C>::GroupError(GroupError::InvalidIdentityElement)),
+{}
+
+// stand-alone share verification refuses such a package first of all
+//@serves C05
+pub proof fn thm_verify_share_refuses_identity<C: Ciphersuite>(id: Identifier<C>, sp: SigningPackage<C>, vk: Element<C>)
+    requires items_have_identity::<C>(sp_items::<C>(sp))
+    ensures vshare_session_err::<C>(id, sp, vk) == Some(Error::<C>::GroupError(GroupError::InvalidIdentityElement))
+{}
+
+// `items_have_identity` at the level of the map: some participant's hiding or binding commitment is the identity
+//@serves C05
+pub proof fn lemma_items_identity_iff<C: Ciphersuite>(sp: SigningPackage<C>)
+    requires sp.signing_commitments@.dom().finite()
+    ensures items_have_identity::<C>(sp_items::<C>(sp)) <==> exists|id: Identifier<C>| #[trigger] sp.signing_commitments@.contains_key(id) && sc_has_identity::<C>(sp.signing_commitments@[id])
+{
+    let m = sp.signing_commitments@; let keys = sorted_seq(m.dom()); let items = sp_items::<C>(sp);
+    lemma_sorted_exists::<C>(m.dom());
+    if items_have_identity::<C>(items) {
+        let k = choose|k: int| 0 <= k < items.len() && sc_has_identity::<C>((#[trigger] items[k]).1);
+        assert(items[k] == (keys[k], m[keys[k]]));
+        assert(keys.contains(keys[k]));
+        assert(keys.to_set().contains(keys[k]));
+        assert(m.contains_key(keys[k]) && sc_has_identity::<C>(m[keys[k]]));
+    }
+    if exists|id: Identifier<C>| #[trigger] m.contains_key(id) && sc_has_identity::<C>(m[id]) {
+        let id = choose|id: Identifier<C>| #[trigger] m.contains_key(id) && sc_has_identity::<C>(m[id]);
+        assert(keys.to_set().contains(id));
+        let k = choose|k: int| 0 <= k < keys.len() && keys[k] == id;
+        assert(items[k] == (id, m[id]));
+        assert(sc_has_identity::<C>(items[k].1));
+    }
+}
+
+// ---------------------------------------------------------------------------------------------------
+// T4e/f (C04): what aggregate releases, and what it reports with cheater detection disabled
+//@serves C04 C01
+pub proof fn thm_released_signature_verifies<C: Ciphersuite>(res: Result<Signature<C>, Error<C>>, sp: SigningPackage<C>, shares: ShareMap<C>, pk: PublicKeyPackage<C>, detect: bool, first: bool)
+    requires agg_result_is::<C>(res, sp, shares, pk, detect, first), res is Ok
+    ensures spec_verify::<C>(pk.verifying_key, sp.message@, res->Ok_0) is Ok,
+        res->Ok_0 == agg_sig::<C>(sp, shares, pk.verifying_key.element.0),
+        agg_guard_err::<C>(sp, shares, pk, detect) is None,
+{}
+
+// conversely: if the shares do not add up to a valid signature, aggregation fails (in every mode)
+//@serves C04
+pub proof fn thm_invalid_sum_fails<C: Ciphersuite>(res: Result<Signature<C>, Error<C>>, sp: SigningPackage<C>, shares: ShareMap<C>, pk: PublicKeyPackage<C>, detect: bool, first: bool)
+    requires agg_result_is::<C>(res, sp, shares, pk, detect, first),
+        spec_verify::<C>(pk.verifying_key, sp.message@, agg_sig::<C>(sp, shares, pk.verifying_key.element.0)) is Err
+    ensures res is Err
+{}
+
+// disabled mode names nobody; once the coordinator's guards pass and the group commitment is not the identity the report is InvalidSignature
+//@serves C04
+pub proof fn thm_disabled_names_nobody<C: Ciphersuite>(res: Result<Signature<C>, Error<C>>, sp: SigningPackage<C>, shares: ShareMap<C>, pk: PublicKeyPackage<C>, first: bool)
+    requires agg_result_is::<C>(res, sp, shares, pk, false, first), res is Err
+    ensures !(res->Err_0 is InvalidSignatureShare),
+        agg_guard_err::<C>(sp, shares, pk, false) is None && sp_R::<C>(sp, pk.verifying_key.element.0) != e0::<C>() ==> res->Err_0 == Error::<C>::InvalidSignature,
+        agg_guard_err::<C>(sp, shares, pk, false) is None && sp_R::<C>(sp, pk.verifying_key.element.0) == e0::<C>() ==> res->Err_0 == Error::<C>::GroupError(GroupError::InvalidIdentityElement),
+{}
+
+// the two detecting modes: exactly the list / its first element, and only when the aggregate does not verify
+//@serves C04
+pub proof fn thm_detect_modes_report<C: Ciphersuite>(res: Result<Signature<C>, Error<C>>, sp: SigningPackage<C>, shares: ShareMap<C>, pk: PublicKeyPackage<C>, first: bool)
+    requires agg_result_is::<C>(res, sp, shares, pk, true, first), res is Err, agg_guard_err::<C>(sp, shares, pk, true) is None,
+        sp_R::<C>(sp, pk.verifying_key.element.0) != e0::<C>()
+    ensures
+        spec_verify::<C>(pk.verifying_key, sp.message@, agg_sig::<C>(sp, shares, pk.verifying_key.element.0)) is Err,
+        agg_culprits::<C>(sp, shares, pk).len() == 0 ==> res->Err_0 == Error::<C>::InvalidSignature,
+        agg_culprits::<C>(sp, shares, pk).len() > 0 ==> res->Err_0 is InvalidSignatureShare,
+        agg_culprits::<C>(sp, shares, pk).len() > 0 && first ==> (res->Err_0->culprits)@ == seq![agg_culprits::<C>(sp, shares, pk)[0]],
+        agg_culprits::<C>(sp, shares, pk).len() > 0 && !first ==> (res->Err_0->culprits)@ == agg_culprits::<C>(sp, shares, pk),
+{}
+
 } // verus!
 }
